@@ -434,4 +434,26 @@ def setHrefR (idna : Spec.Idna) (L : Nat) (r : Rec) (v : Bytes) : Rec × Bool :=
   | .ok r' => if getHrefSize r' > L then (r, false) else (r', true)
   | .invalid => (r, false)
 
+/-! ### `url::get_origin` (a blob URL's origin is the origin of the URL in its path: a parse without a base) -/
+
+/-- `url::get_host()` -/
+def getHostR (r : Rec) : Bytes :=
+  match r.host with
+  | none => []
+  | some h => match r.port with
+    | some p => h ++ [0x3A] ++ dec16 p
+    | none => h
+
+def bNullB : Bytes := [0x6E, 0x75, 0x6C, 0x6C]
+
+/-- `url::get_origin()` -/
+def getOriginR (idna : Spec.Idna) (r : Rec) : Bytes :=
+  if r.special then
+    (if getSchemeType r.scheme == 6 then bNullB else r.scheme ++ [0x3A] ++ [0x2F, 0x2F] ++ getHostR r)
+  else if r.scheme == Spec.bBlob && !r.path.isEmpty then
+    match parseNoBase idna r.path with
+    | .ok p => if getSchemeType p.scheme == 0 || getSchemeType p.scheme == 2 then p.scheme ++ [0x3A] ++ [0x2F, 0x2F] ++ getHostR p else bNullB
+    | .invalid => bNullB
+  else bNullB
+
 end AdaVerif.Model.ParseSpecial
